@@ -2,6 +2,7 @@ package props
 
 import (
 	"fmt"
+	"regexp"
 	"strings"
 	"testing"
 
@@ -27,6 +28,11 @@ func c02Bytes(src string, info *vlib.Info) *vlib.Failure {
 	}
 	if f := vlib.CheckLocation(res.Err, p.Files); f != nil {
 		f.Msg += "\n--- source:\n" + vlib.StripCR(trunc(src, 3000))
+		if hasRecursiveTypes(src) {
+			// known finding (F27 residue): with mutually recursive user types the
+			// schema library attributes a type error to a type it picks in map order
+			f.Key = keyF27
+		}
 		return f
 	}
 	if res.Err.Full != res.Err.Msg && !strings.Contains(src, "INCLUDE") {
@@ -155,6 +161,61 @@ func c02Check(c c02Case, info *vlib.Info) *vlib.Failure {
 		}
 	}
 	return vlib.Failf("include-trace", "wrong include trace:\n got: %q\nwant: %q\n%s", got, wants[0], show())
+}
+
+const keyF27 = "schema-error-attribution-with-recursive-types"
+
+var typeNameRe = regexp.MustCompile(`@[A-Za-z0-9_-]+`)
+
+// hasRecursiveTypes: some TYPE of the text references itself, directly or
+// through other TYPEs (textual approximation: names used between one TYPE
+// line and the next line that starts with a keyword).
+func hasRecursiveTypes(src string) bool {
+	src = strings.ReplaceAll(strings.ReplaceAll(src, "\r\n", "\n"), "\r", "\n")
+	refs := map[string][]string{}
+	cur := ""
+	for _, l := range strings.Split(src, "\n") {
+		t := strings.TrimLeft(l, " \t")
+		if strings.HasPrefix(t, "TYPE") {
+			names := typeNameRe.FindAllString(t, -1)
+			cur = ""
+			if len(names) > 0 {
+				cur = names[0]
+			}
+			continue
+		}
+		if len(t) > 0 && t[0] >= 'A' && t[0] <= 'Z' {
+			cur = ""
+			continue
+		}
+		if cur != "" {
+			refs[cur] = append(refs[cur], typeNameRe.FindAllString(t, -1)...)
+		}
+	}
+	state := map[string]int{}
+	var dfs func(n string) bool
+	dfs = func(n string) bool {
+		switch state[n] {
+		case 1:
+			return true
+		case 2:
+			return false
+		}
+		state[n] = 1
+		for _, m := range refs[n] {
+			if dfs(m) {
+				return true
+			}
+		}
+		state[n] = 2
+		return false
+	}
+	for n := range refs {
+		if dfs(n) {
+			return true
+		}
+	}
+	return false
 }
 
 const keyF10 = "trace-line-of-earlier-include-of-includer"
